@@ -128,7 +128,7 @@ def pratt_corpus(tier):
             combos.append(c)
     rng.shuffle(combos)
     out = []
-    limit = 36 if tier == "quick" else 400
+    limit = 36 if tier == "quick" else 150
     for c in combos:
         orders = list(itertools.permutations(c))
         rng.shuffle(orders)
@@ -389,7 +389,7 @@ def judge(prop, tier):
     built = build_all(files)
     cap = 1600 if tier == "quick" else 4000
     if prop == "C07":
-        cap = 4000 if tier == "quick" else 20000
+        cap = 4000 if tier == "quick" else 9000
     with_skips = prop != "C07"
     pairs = prop == "C16"
     sel = [b for b in built if b.ok and SELECT[prop](b.feat)]
